@@ -461,6 +461,11 @@ def run(pid, tier):
                      'action from every reachable abstract state of '
                      'instrumented servers; distinct = distinct abstract '
                      'states + distinct credential cases')
+    v.cov['exhaustive'] = False
+    v.cov['exhaustive_note'] = (
+        'gating and transparency graphs are enumerated completely; the '
+        'credential cases are the specification\'s payload set plus seeded '
+        'mutations of the credentials')
     v.cov['evaluations'] = v.cov['traces_validated_against_impl']
     v.cov['distinct_nontrivial'] = sum(
         r['impl_states'] for r in v.cov['runs']) + len(
